@@ -123,7 +123,7 @@ class Model:
                 return "err:TextXRegistrationError"
             d = self.langs[k]
             if d["kind"] == "instance":
-                self.cache[k] = "inst:" + d["name"]
+                self.cache[k] = f"inst:{d['name']}@{d['reg']}"
             else:
                 self.serial += 1
                 self.cache[k] = f"new:{d['name']}#{self.serial}"
@@ -135,7 +135,10 @@ class Model:
             _, n, p, kind = op
             if n.lower() in self.langs:
                 return "err:TextXRegistrationError"
-            self.langs[n.lower()] = {"name": n, "pattern": p, "kind": kind, "tag": None}
+            # every registration of a metamodel *instance* brings its own object (the harness creates one per
+            # registration), so the token carries the registration's serial number
+            self.regs = getattr(self, "regs", 0) + 1
+            self.langs[n.lower()] = {"name": n, "pattern": p, "kind": kind, "tag": None, "reg": self.regs}
             return "ok"
         if o == "lang_desc":
             d = self.langs.get(op[1].lower())
